@@ -309,15 +309,23 @@ def supplied_variants(res, ctx, st, rng, n):
                          (Fraction(0), False, "reject" if abs(comp) > Fraction(1, 1000) else "accept"),
                          (Fraction(0), True, "accept"), (comp * 2, True, "accept"),
                          (comp + Fraction(1, 1000), False, "accept"), (comp - Fraction(1, 1000), False, "accept")]
-                sv, force, exp = rng.choice(cands)
-                if exp is None:
-                    continue
-                if len(core.dtext(sv).replace("-", "").replace(".", "").lstrip("0")) > 28:
-                    continue        # not a rust_decimal literal: the parser itself would round it
-                rows = [dict(x) for x in r["case"]["rows"]]
-                rows[d["ri"]]["sfl"] = ((core.dtext(sv), sv), force)
-                variants.append({"rows": rows, "inits": {}})
-                expect.append((d["ri"], sv, force, exp, comp))
+                # the computed value rounded to the cent, and values next to that: within the tolerance of the
+                # COMPUTED value or not (a comparison with the rounded value instead would accept up to 0.006 off)
+                cent = Fraction(round(comp * 100), 100)
+                for c_ in (cent, cent + Fraction(1, 2000), cent - Fraction(1, 2000)):
+                    if c_ <= 0:
+                        cands.append((c_, False, "accept" if abs(c_ - comp) <= Fraction(1, 1000) else "reject"))
+                near_cent = [c for c in cands[8:]]
+                picks = rng.sample(cands[:8], 2) + (near_cent[:1] + rng.sample(near_cent, 1) if near_cent else [])
+                for sv, force, exp in picks:
+                    if exp is None:
+                        continue
+                    if len(core.dtext(sv).replace("-", "").replace(".", "").lstrip("0")) > 28:
+                        continue        # not a rust_decimal literal: the parser itself would round it
+                    rows = [dict(x) for x in r["case"]["rows"]]
+                    rows[d["ri"]]["sfl"] = ((core.dtext(sv), sv), force)
+                    variants.append({"rows": rows, "inits": {}})
+                    expect.append((d["ri"], sv, force, exp, comp))
                 break
     for r, (ri, sv, force, exp, comp) in zip(corecheck.run_cases(ctx, variants), expect):
         st["evaluations"] += 1
